@@ -54,7 +54,39 @@ static int scenario_d() {
     w_go_unlock = 1; usleep(300000);
     puts("NOT-REPRODUCED"); fflush(stdout); _exit(0);
 }
+// Scenario E (C12): W holds; R1 parks; W unlocks; R1 is inside and stays; a new reader R2 arrives with no writer active or
+// waiting.  Violation: R2 is not admitted while R1 holds.
+static volatile int rq_in = 0;
+static void *RQ(void *) { res->lockRead(); rq_in = 1; enter(false); usleep(20000); leave(false); res->unlockRead(); return 0; }
+static int scenario_e() {
+    pthread_t tw, t1, t2;
+    pthread_create(&tw, 0, W, 0); if (!wait_until(w_locked)) return 2;
+    pthread_create(&t1, 0, R3, 0); if (!wait_parked(1)) return 2;
+    w_go_unlock = 1; if (!wait_until(r3_in)) return 2;         // R3 was queued, is admitted and stays inside
+    pthread_create(&t2, 0, RQ, 0);
+    bool in = wait_until(rq_in, 1500);
+    if (!in) { puts("CONFIRMED: a reader arriving while only readers hold the lock (no writer active or waiting) was not admitted"); fflush(stdout); _exit(1); }
+    r3_go = 1; usleep(100000);
+    puts("NOT-REPRODUCED"); fflush(stdout); _exit(0);
+}
+// Scenario F (C01/C11): a first busy period in which a request had to queue, then the resource goes completely idle;
+// in the second period a reader holds and a writer arrives.  Violation: the writer is admitted while the reader holds.
+static int scenario_f() {
+    pthread_t tw, t1, t2, t3;
+    pthread_create(&tw, 0, W, 0); if (!wait_until(w_locked)) return 2;
+    pthread_create(&t1, 0, R1, 0); if (!wait_parked(1)) return 2;
+    w_go_unlock = 1; usleep(50000); r1_go_unlock = 1; if (!wait_until(r1_done)) return 2;    // idle again
+    usleep(50000);
+    pthread_create(&t2, 0, R3, 0); if (!wait_until(r3_in)) return 2;                         // second period: a reader holds
+    pthread_create(&t3, 0, W2c, 0);
+    usleep(300000);
+    if (overlap || w2_in) { puts("CONFIRMED: in a later busy period a writer was admitted while a reader held the lock (stale admission bound)"); fflush(stdout); _exit(1); }
+    r3_go = 1; usleep(200000);
+    puts("NOT-REPRODUCED"); fflush(stdout); _exit(0);
+}
 int main(int argc, char **argv) {
+    if (argc > 1 && !strcmp(argv[1], "E")) { res = new Resource(); return scenario_e(); }
+    if (argc > 1 && !strcmp(argv[1], "F")) { res = new Resource(); return scenario_f(); }
     if (argc > 1 && !strcmp(argv[1], "C")) { res = new Resource(); return scenario_c(); }
     if (argc > 1 && !strcmp(argv[1], "D")) { res = new Resource(); return scenario_d(); }
     bool withW2 = argc > 1 && !strcmp(argv[1], "A");
